@@ -60,17 +60,35 @@ DimacsWhy(e) ==
           ELSE ""
 
 (* ---- C17: parsing -------------------------------------------------------- *)
+(* A deep tree arrives in post-order, as a flat list of [op, i, n] (operator, variable index, number  *)
+(* of operands): evaluated with a stack of truth values.                                             *)
+RECURSIVE AllTrue(_, _, _), AnyTrue(_, _, _), FlatRun(_, _, _, _)
+AllTrue(st, lo, hi) == IF lo > hi THEN TRUE ELSE st[lo] /\ AllTrue(st, lo + 1, hi)
+AnyTrue(st, lo, hi) == IF lo > hi THEN FALSE ELSE st[lo] \/ AnyTrue(st, lo + 1, hi)
+FlatRun(fl, i, st, a) ==
+  IF i > Len(fl) THEN st
+  ELSE LET nd == fl[i]
+           m == Len(st) - nd.n
+           v == CASE nd.op = "v"   -> a[nd.i]
+                  [] nd.op = "T"   -> TRUE
+                  [] nd.op = "F"   -> FALSE
+                  [] nd.op = "not" -> ~st[Len(st)]
+                  [] nd.op = "and" -> AllTrue(st, m + 1, Len(st))
+                  [] nd.op = "or"  -> AnyTrue(st, m + 1, Len(st))
+       IN FlatRun(fl, i + 1, Append(SubSeq(st, 1, m), v), a)
+FlatTT(fl, k) == {a \in Assignments(k) : FlatRun(fl, 1, <<>>, a)[1]}
+ParsedTT(e) == IF "useFlat" \in DOMAIN e /\ e.useFlat THEN FlatTT(e.flat, K) ELSE TruthTable(e.ast, K)
 ParseWhy(e) ==
   LET ref == Parse(e.tokens, Case.names) IN
   IF e.panic THEN "parse-panic"
   ELSE IF ref.ok
   THEN IF e.err THEN "parse-rejected-well-formed"
        ELSE IF e.foreign THEN "parse-invented-variable"
-       ELSE IF TruthTable(e.ast, K) # TruthTable(ref.f, K) THEN "parse-wrong-meaning"
+       ELSE IF ParsedTT(e) # TruthTable(ref.f, K) THEN "parse-wrong-meaning"
        ELSE ""
   ELSE IF TrailingSemi(e.tokens, Case.names)
   THEN IF e.err THEN ""
-       ELSE IF e.foreign \/ TruthTable(e.ast, K) # TruthTable(Parse(SubSeq(e.tokens, 1, Len(e.tokens) - 1), Case.names).f, K)
+       ELSE IF e.foreign \/ ParsedTT(e) # TruthTable(Parse(SubSeq(e.tokens, 1, Len(e.tokens) - 1), Case.names).f, K)
             THEN "parse-wrong-meaning" ELSE ""
   ELSE IF ~e.err THEN "parse-accepted-ill-formed"
   ELSE IF ~e.nilFormula THEN "parse-error-with-formula"
